@@ -37,6 +37,17 @@ def payload(rng, kind):
     return out.replace('\n', '').replace('\r', '')
 
 
+def lead_payload(rng, kind):
+    # U+00A0 is in the lexer's and scanners' whitespace classes (as the two bytes C2 A0): half of the cases
+    c = '\u00a0' if rng.random() < 0.5 else rng.choice(SPECIAL)
+    k = rng.random()
+    if k < 0.5:
+        return c * rng.randint(1, 4)
+    if k < 0.8:
+        return c + rng.choice(SPECIAL)
+    return rng.choice([' ', '  ', '\t']) + c * rng.randint(1, 2)
+
+
 def strict_utf8(b):
     try:
         b.decode('utf-8', 'strict')
@@ -63,7 +74,12 @@ def work(job):
     with core.Session(r) as s:
         for i in range(lo, hi):
             rng = core.job_rng(seed, ID, i)
-            text, sl = slots.build(rng, payload, eol=rng.choice(['\n', '\n', '\r\n']))
+            if rng.random() < 0.3:
+                # byte-special characters alone, right after a block marker or right before the line end (where stripping code cuts by bytes)
+                text, sl = slots.build(rng, lead_payload, kinds=slots.LEADING_KINDS, nslots=rng.randint(3, 6), eol=rng.choice(['\n', '\n', '\r\n']))
+                r.stats['leading_position_documents'] += 1
+            else:
+                text, sl = slots.build(rng, payload, eol=rng.choice(['\n', '\n', '\r\n']))
             src = text.encode('utf-8')
             ext = rng.choice([D.EXT_CLI, D.EXT_CLI, D.EXT_CLI & ~D.EXT['SMART'], D.EXT_CLI_COMPAT, D.EXT_CLI | D.EXT['COMPLETE'], D.EXT_CLI | D.EXT['SNIPPET'],
                               D.EXT_CLI | D.EXT['OBFUSCATE'], D.EXT_CLI | D.EXT['CRITIC_ACCEPT'], D.EXT_CLI | D.EXT['CRITIC_REJECT'], D.EXT_CLI | D.EXT['NO_LABELS'],
